@@ -126,6 +126,19 @@ BasesY == {<<>>}
 ProbesY == <<W("/x", <<>>), W("/u/{id}", [id |-> "7q"]), A("/u/"), A("/zz"), A(""), A("*")>>
 MethodsY == <<"GET", "HEAD", "POST", "OPTIONS", "TRACE", "BOGUS">>
 
+\* ---------------- pool K (clean): siblings that share a parameter token - a bare regexp / named parameter and its extensions -
+\* x every Clean whose prefix ends inside, at or just after the token, depth 3, unsampled
+PatsK == {"/p/{id:\\d+}", "/p/{id:\\d+}/author", "/p/{id}/x", "/p/{id}", "/p/a", "/p/ab"}
+HOpsK == {H(p, G) : p \in PatsK}
+ROpsK == {}
+COpsK == {Cl("/p/{id:\\d+}/"), Cl("/p/{id:\\d+}"), Cl("/p/{id}/"), Cl("/p/{id}"), Cl("/p/a"), Cl("/p/")}
+UOpsK == {}
+CfgsK == {Cfg(FALSE)}
+BasesK == {<<>>}
+ProbesK == <<W("/p/{id:\\d+}", [id |-> "77"]), W("/p/{id:\\d+}/author", [id |-> "77"]), W("/p/{id}/x", [id |-> "7q"]), W("/p/{id}", [id |-> "7q"]),
+             W("/p/a", <<>>), W("/p/ab", <<>>), A("/p/"), A("/p/77/zz"), A("*")>>
+MethodsK == <<"GET", "OPTIONS">>
+
 \* ---------------- pool Wd (wide): one pattern with 32 named parameters (more than any context of the test-suite ever held) next to a
 \* narrow one; the battery serves the wide route and then the narrow one through the same pooled request context
 \* (distinct one-character separators keep the split of the path unique, so the resolver stays linear)
